@@ -160,4 +160,18 @@ CHECKS["C17"] = dict(
         note="Floating-point inputs are a structured value set, not all doubles; the bound gamma_k*sum|terms| holds for every IEEE evaluation order.",
 )
 
+CHECKS["C06"] = dict(
+        src="checks/c06.cpp", cfg="rel", link="static", engine="A-case-explorer",
+        category="exploration", design_ref="DESIGN.md section 4, C06",
+        technique="exhaustive enumeration of every m x every implementation x the complete impulse basis (plus structured vectors) on the real code against the binary128 evaluation map",
+        text="For every m = 1..4096 (65536 thorough) each of the eight transforms (reference and AVX2/FMA drivers, split and interleaved layouts, "
+             "forward and inverse; the C and assembly 2/4/8/16-point leaves are the m <= 16 cases; every m crosses both algorithm thresholds) is "
+             "run on ALL unit impulses (real and imaginary; exact output omega^(e_j k) by table look-up), constants, resonant vectors, a 2^+-40 "
+             "dynamic-range vector and seeded dense vectors, and must satisfy ||out - exact||_2 <= 8 log2(2m) 2^-53 ||exact||_2 against the "
+             "binary128 evaluation at omega^(1+4 bitrev(j)); every case is executed twice (bit-identical) with the table hashed before and after; "
+             "the dispatching API must select the expected kernel per cfg and agree with it bit for bit.",
+        note="The impulse basis is complete (it bounds the table-induced operator error, reported as a Frobenius norm); worst-case rounding "
+             "accumulation over all real inputs is outside an enumerable space and is only sampled by the alphabet.",
+)
+
 NOT_YET = {}
